@@ -145,17 +145,31 @@ T0 = 1000 * TICK                 # start of every simulated connection
 
 _FLAGS = {}
 
-def get_flags(max_send=3, threaded=False, timeout=10, web=False, static_dir=None):
-    key = (max_send, threaded, timeout, web, static_dir)
+def timeout_ticks(case):
+    """the idle timeout of a case in clock ticks: 'timeout_ticks' (0, 1, ... for boundary values incl. fractions of a
+    second) or 'timeout' whole seconds"""
+    if case.get('timeout_ticks') is not None:
+        return int(case['timeout_ticks'])
+    return int(case.get('timeout', 10)) * TICK
+
+
+def get_flags(max_send=3, threaded=False, tticks=10 * 1024, web=False, static_dir=None, tls=False):
+    key = (max_send, threaded, tticks, web, static_dir, tls)
     if key not in _FLAGS:
-        args = ['--max-sendbuf-size', str(max_send), '--timeout', str(timeout)]
+        args = ['--max-sendbuf-size', str(max_send)]
         if threaded:
             args.append('--threaded')
         if web:
             args += ['--enable-web-server', '--plugins', 'proxy.plugin.WebServerPlugin']
         if static_dir:
             args += ['--enable-static-server', '--static-server-dir', static_dir]
-        _FLAGS[key] = sim.make_flags(args=args)
+        if tls:
+            # the proxy terminates TLS itself: initialize() wraps the accepted socket and REPLACES self.work
+            # (wrap_socket is patched by RelayDriver to hand back the fake socket)
+            args += ['--key-file', '/verif-sim/key.pem', '--cert-file', '/verif-sim/cert.pem']
+        f = sim.make_flags(args=args)
+        f.timeout = tticks / TICK          # 0, fractions of a second and whole seconds alike (exact binary fractions)
+        _FLAGS[key] = f
     return _FLAGS[key]
 
 
@@ -287,13 +301,28 @@ class RelayDriver:
         self.case = case
         self.handler = handler = case.get('handler', 'http')
         self.threaded = bool(case.get('threaded'))
-        flags = get_flags(case.get('max_send', 3), self.threaded, case.get('timeout', 10), bool(case.get('web')),
-                          case.get('static_dir'))
+        tls = bool(case.get('tls')) and handler == 'http'
+        flags = get_flags(case.get('max_send', 3), self.threaded, timeout_ticks(case), bool(case.get('web')),
+                          case.get('static_dir'), tls)
         self.t0 = case.get('t0', T0)
         self.clock = sim.VClock(self.t0 / TICK)
         klass = tunnel_handler_klass() if handler == 'tunnel' else None
         connect_script = [None if x is None else sim.io_error(x) for x in case.get('connect', [])]
-        self.S = S = sim.Sim(flags=flags, clock=self.clock, handler_klass=klass, connect_script=connect_script)
+        self._wrap_patch = None
+        if tls:
+            from unittest import mock
+            self._wrap_patch = mock.patch('proxy.core.base.tcp_server.wrap_socket', lambda conn, keyfile, certfile: conn)
+            self._wrap_patch.start()
+        try:
+            self.S = S = sim.Sim(flags=flags, clock=self.clock, handler_klass=klass, connect_script=connect_script)
+        except BaseException:
+            self._stop_wrap_patch()
+            raise
+        _close = S.close
+        def close_all():
+            self._stop_wrap_patch()             # threaded run() calls initialize() (and wrap_socket) once more
+            _close()
+        S.close = close_all
         self.h = h = S.h
         def interest():
             # same as sim.Sim.interest but usable while an asyncio loop is running (threaded run())
@@ -322,11 +351,23 @@ class RelayDriver:
         self.steps, self.oracles, self.executed = [], [], []
         self.uprcvd, self.clrcvd = b'', b''
         self.cq = cq = []                       # every piece queued for the client, in order
-        orig_queue = h.work.queue
-        def client_queue(mv):
-            cq.append(bytes(mv))
-            return orig_queue(mv)
-        h.work.queue = client_queue
+        def wrap_work_queue():
+            work = h.work
+            if getattr(work.queue, '_verif_logged', False):
+                return
+            orig_queue = work.queue
+            def client_queue(mv):
+                cq.append(bytes(mv))
+                return orig_queue(mv)
+            client_queue._verif_logged = True
+            work.queue = client_queue
+        wrap_work_queue()
+        # threaded run() calls initialize() again; with a TLS listener that REPLACES self.work once more
+        orig_initialize = h.initialize
+        def initialize():
+            orig_initialize()
+            wrap_work_queue()
+        h.initialize = initialize
         self.rec = rec = {}
         orig_hd = h.handle_data
         drv = self
@@ -366,6 +407,14 @@ class RelayDriver:
         self.client_plan = list(case.get('client_plan', []))
         self.up_plan = list(case.get('up_plan', []))
         self._cur = None
+
+    def _stop_wrap_patch(self):
+        if self._wrap_patch is not None:
+            try:
+                self._wrap_patch.stop()
+            except RuntimeError:
+                pass
+            self._wrap_patch = None
 
     # -- one event
     def pre_step(self, ev0):
@@ -594,7 +643,7 @@ def coq_relay_case(case, out):
     t0 = case.get('t0', T0)
     evs = [coq_event(ev, orc, t0) for ev, orc in zip(out['events'][:n], out['oracles'][:n])]
     cfg = '(mkCfg %d ACK %s %s)' % (case.get('max_send', 3),
-                                  coq_Z(case.get('timeout', 10) * TICK), C.coq_bool(not case.get('threaded')))
+                                  coq_Z(timeout_ticks(case)), C.coq_bool(not case.get('threaded')))
     exp = ['SO %d %d %d %d %d %d %d %s' % (s['int'], s['res'], s['csent'], s['usent'], s['cpend'], s['upend'],
                                            s['la'] - t0,
                                            C.coq_bool(s['inactive']) if s['inactive'] is not None else 'false')
@@ -678,6 +727,11 @@ def gen_relay(rng, profile='relay', n_events=None, max_send=None, handler=None):
     handler = handler or ('tunnel' if rng.random() < 0.12 else 'http')
     case = dict(kind='relay', profile=profile, handler=handler, max_send=max_send, timeout=rng.choice([1, 2, 10]),
                 t0=T0, threaded=False, web=False, connect=[], events=[], sel=[])
+    # configuration dimensions: the proxy terminates TLS itself (initialize() then replaces self.work), and boundary
+    # values of the idle timeout: 0 ("for all timeout values"), one tick, fractions of a second
+    case['tls'] = handler == 'http' and rng.random() < (0.3 if profile == 'timed' else 0.12)
+    if profile == 'timed' and rng.random() < 0.25:
+        case['timeout_ticks'] = rng.choice([0, 0, 1, 3, 512])
     r = rng.random()
     if handler == 'tunnel':
         exchange = 'connect' if r < 0.9 else 'notconnect'
@@ -780,8 +834,8 @@ def gen_relay(rng, profile='relay', n_events=None, max_send=None, handler=None):
     case['client_plan'] = client_plan
     case['up_plan'] = up_plan
     for i in range(n_events):
-        gap = rng.choice([0, 1, 5, 300]) if profile != 'timed' else rng.choice([1, 200, TICK, case['timeout'] * TICK - 1,
-                                                                                case['timeout'] * TICK, case['timeout'] * TICK + 1])
+        gap = rng.choice([0, 1, 5, 300]) if profile != 'timed' else rng.choice([1, 200, TICK, max(timeout_ticks(case) - 1, 0),
+                                                                                timeout_ticks(case), timeout_ticks(case) + 1])
         now += gap
         ev = dict(now=now, r=[], w=[])
         if rng.random() < (0.6 if i < 4 else 0.35):
@@ -796,8 +850,8 @@ def gen_relay(rng, profile='relay', n_events=None, max_send=None, handler=None):
         if rng.random() < 0.7:
             ev['w'].append('up0')
             ev['u_send'] = rand_outcome(rng, maxk=max_send, perr=perr_u)
-        d = case['timeout'] * TICK
-        ev['probe'] = now + rng.choice([0, 1, d - 1, d, d + 1, d + TICK])
+        d = timeout_ticks(case)
+        ev['probe'] = now + rng.choice([0, 1, max(d - 1, 0), d, d + 1, d + TICK])
         case['events'].append(ev)
     # let pending output drain at the end (the client "keeps reading")
     for _ in range(rng.choice([0, 6, 25])):
@@ -1111,7 +1165,7 @@ def run_reaper_threaded(case):
 
 def coq_reaper_case(case, out):
     t0 = case.get('t0', T0)
-    cfg = '(mkCfg %d ACK %s %s)' % (case.get('max_send', 3), coq_Z(case.get('timeout', 10) * TICK),
+    cfg = '(mkCfg %d ACK %s %s)' % (case.get('max_send', 3), coq_Z(timeout_ticks(case)),
                                    C.coq_bool(case['kind'] != 'reaper-threaded'))
     its = []
     if case['kind'] == 'reaper-threadless':
